@@ -83,6 +83,11 @@ CHECKS["C13"] = {
          "cover": ["sections-ok"]},
         {"name": "fields", "pkg": "rfc822", "pkgname": "rfc822", "entry": "VerifFields", "files": ["zz_verif_rfc822.go"],
          "params": {"quick": grid(n=[3, 4], fieldLen=[1]) + grid(n=[4], fieldLen=[2]), "thorough": grid(n=[3, 4, 5, 6], fieldLen=[1]) + grid(n=[4, 5, 6], fieldLen=[2])}, "cover": ["field-selected"]},
+        {"name": "wire", "pkg": "internal/session", "pkgname": "session", "entry": "VerifC13Wire", "files": ["zz_verif_c18.go", "zz_verif_c18b.go", "zz_verif_c01.go", "zz_verif_c01idle.go", "zz_verif_c01idle2.go", "zz_verif_c01wire.go"],
+         "with": ["state_export", "backend_export", "verifdb"], "goroutines": True, "concrete_time": True, "replay_timeout_s": 90,
+         "extra_overlay": {"internal/response/zz_verif_decode.go": "internal/response/zz_verif_decode.go"},
+         "params": {"quick": grid(g=[0, 1, 2]), "thorough": grid(g=[3, 4])},
+         "cover": ["fetched"]},
     ],
     "stubs": [],
     "outside": ["literals longer than the byte bound", "the {n} framing text produced by fmt from len(literal)", "store round trip (C09)"],
